@@ -58,7 +58,7 @@ def run(ctx, rep):
                      'and with one extra grouping' % n_rand)
     # (ii') sentences in which one operand is a quote-delimited token: such a token is a string,
     # never a check, so the rule is not a sentence whether or not parentheses are glued to it
-    qpool = ["'a':'b'", '"x:y"', "'role:r0'", '"@"', "'k':'%(k0)s'"]
+    qpool = ["'a':'b'", '"x:y"', "'role:r0'", '"@"', "'k':'%(k0)s'", '""', "''"]
     n_q = ctx.n(150, 3000)
     for _ in range(n_q):
         e = gen.gen_e0(ctx.rng, ctx.rng.choice([1, 2, 3]), lambda r: r.choice(pool + qpool * 2))
